@@ -1217,6 +1217,7 @@ def r28(ctx, P):
             movers.add(g.name)
     movers.add('jls_core_rd_chunk')
     movers.add('reconstruct_omitted_chunk')
+    movers.add('jls_buf_realloc')
     n = 0
     for fn in P.all_functions():
         if fn.file not in ('src/core.c', 'src/reader.c', 'src/track.c', 'src/copy.c'):
@@ -1243,6 +1244,9 @@ def r28(ctx, P):
             uses = []
             for ev in fn.events():
                 if ev.e is None or ev in defs:
+                    continue
+                if ev.k == 'call' and ev.callee not in ('jls_buf_realloc',) and any(strip_casts(a).get('op') == 'ref' and strip_casts(a).get('name') == name for a in ev.args):
+                    uses.append(ev)          # handed to a callee that reads or fills through it
                     continue
                 for m in walk(ev.e):
                     if m.get('op') in ('member', 'sub', 'un') and m.get('op') != 'un' or (m.get('op') == 'un' and m.get('o') == '*'):
@@ -1307,3 +1311,67 @@ def r29(ctx, P):
                    'the count comes from the entry count of the chunk (%s)' % texts[-1][:40] if ok else
                    'the converter is told to read %s samples whatever the chunk holds: for a short chunk (the last block, or a block size above what the 1 MiB read buffer holds) it reads past the payload and past the buffer' % texts[0])
     ctx.floor('conversions of chunk payloads', n, 2)
+
+
+def r17b(ctx, P):
+    """realloc of an object whose own pointer fields point into its trailing array: they are set again from the new block"""
+    n = 0
+    for fn in P.all_functions():
+        if not fn.file.startswith('src/'):
+            continue
+        for al in fn.calls('realloc'):
+            a0 = strip_casts(al.args[0])
+            t = a0.get('t', '')
+            if a0.get('op') != 'ref' or not t.startswith('p:s:'):
+                continue
+            recname = t[4:]
+            rec = P.record(recname) if recname in getattr(P, 'records', {recname: 1}) else None
+            try:
+                rec = P.record(recname)
+            except Exception:
+                continue
+            # fields of this record that somewhere are pointed at the record's own array:  X->f = X->buffer (+ ...)
+            selfp = set()
+            for g in P.all_functions():
+                for ev in g.stores():
+                    lhs, rhs, o = ev.store_parts()
+                    l0 = strip_casts(lhs)
+                    if l0.get('op') == 'member' and l0.get('rec') == recname and rhs is not None and o == '=' and (l0.get('t') or '').startswith('p:'):
+                        if any(m.get('op') == 'member' and m.get('rec') == recname and (m.get('t') or '').startswith('a') for m in walk(rhs)) or \
+                                any(m.get('op') == 'member' and m.get('rec') == recname and m.get('field') in selfp for m in walk(rhs)):
+                            selfp.add(l0['field'])
+            if not selfp:
+                continue
+            n += 1
+            ctx.saw(fn, 1)
+            # the local that receives the result
+            res = None
+            for ev in al.block.events[al.idx + 1:]:
+                if ev.k in ('decl', 'store') and ev.e is not None:
+                    rhs = ev.e if ev.k == 'decl' else ev.store_parts()[1]
+                    if rhs is not None and strip_casts(rhs).get('id') == al.e.get('id'):
+                        res = ev.name if ev.k == 'decl' else strip_casts(ev.store_parts()[0]).get('name')
+            missing = []
+            for f_ in sorted(selfp):
+                def on_event(e2, facts, f_=f_):
+                    if e2.k == 'store':
+                        l2 = strip_casts(e2.store_parts()[0])
+                        r2 = e2.store_parts()[1]
+                        if l2.get('op') == 'member' and l2.get('rec') == recname and l2.get('field') == f_ and r2 is not None:
+                            # set from the new block: mentions the array of the result, not another self-pointer that may be stale
+                            stale = [m for m in walk(r2) if m.get('op') == 'member' and m.get('rec') == recname and m.get('field') in selfp and m.get('field') in stale_fields]
+                            if not stale:
+                                stale_fields.discard(f_)
+                                return 'stop'
+                    if e2.k == 'ret' and (e2.e is None or const_of(e2.e) == 0):
+                        return 'target'
+                    return None
+                stale_fields = set(selfp)
+                w = find_path(fn, al, on_event, refine=False)
+                if w is not None:
+                    missing.append((f_, w))
+            ctx.ob('C10.17', not missing, fn.name, 'realloc(%s) re-bases %s' % (show(a0), ', '.join(sorted(selfp))), al.where(),
+                   'every pointer into the object is set from the new block on every success path' if not missing else
+                   '%s still points into the old block on a success path (it is set only for a fresh object, or from another pointer that is itself stale): a use after free once realloc moves the block' % missing[0][0],
+                   missing[0][1].render() if missing else None)
+    ctx.note('C10.17: %d reallocations of objects with pointers into themselves' % n)
